@@ -391,7 +391,9 @@ outer:
 							return
 						}
 						newPacket := gopacket.NewPacket(b.Bytes(), layers.LayerTypeIPv4, gopacket.Default)
-						if err := newPacket.ErrorLayer(); err != nil {
+						// a payload that does not decode as the protocol its port suggests is no reason
+						// to drop the datagram, packets that arrive in one piece are kept as well
+						if err := newPacket.ErrorLayer(); err != nil && newPacket.TransportLayer() == nil {
 							log.Printf("Bad packet %s:%d: %v", pmd.PcapInfo.Filename, pmd.Index, err.Error())
 							return
 						}
